@@ -120,8 +120,12 @@ pub fn dispatch<const H: usize, const N: usize>(unicode_hay: bool, unicode_needl
     let r = rec();
     *r = Rec { pre_ascii: None, pre_non_ascii: None, pre_called: 0, only_greedy: false, callee: Callee::None, args: (0, 0, 0), ret: None, indices_flag: false };
     let (s, g, e) = (sym::usize_(), sym::usize_(), sym::usize_());
-    assume(s < g && g <= e && e <= H && e - s >= N);
-    let pre_some = sym::bool_();
+    // (a needle longer than the haystack has no window: the prefilter stubs then answer None, as the real
+    // prefilters do, and the dispatcher must reject without asking any matcher)
+    if N <= H {
+        assume(s < g && g <= e && e <= H && e - s >= N);
+    }
+    let pre_some = N <= H && sym::bool_();
     if pre_some {
         r.pre_ascii = Some((s, g, e));
         r.pre_non_ascii = Some((s, e));
